@@ -198,6 +198,8 @@ class HandlerPolicy(Policy):
         if fname in ("any", "all") and len(args) == 1 and isinstance(args[0], ListV) and not kwargs \
                 and all(interp.static_truth(x, cfg) is not None for x in args[0].items):
             return None  # decided by the engine: a fold over values whose truth is known
+        if fname in ("tuple", "list", "set") and len(args) == 1 and isinstance(args[0], DictV) and not kwargs and not any(isinstance(k, App) for k, _ in args[0].items):
+            return None  # the keys of a known dictionary
         if fname in PURE_BUILTINS and not (args and isinstance(args[0], (ListV, Const)) and fname in ("tuple", "list", "set", "reversed", "str", "sorted", "frozenset")):
             if not (fname in ("tuple", "list", "set") and not args):
                 return [(cfg, App(fname, (*args, *[App("kw", (Const(k), v)) for k, v in kwargs.items()])))]
